@@ -36,6 +36,9 @@ def run(ctx):
             raise vlib.Broken("no configurations for " + name)
         total += len(behs)
         replay_family(ctx, "when", behs, env={"VERIF_SIG": name}, classify=classify)
+    # stubs with MANY conditions (Scale.tla: 1..120 conditions, every argument 0..n+1 called; chained and re-looked-up handles)
+    from checks import life
+    life.scale(ctx, 60, 1200, ops={"CondStub"})
     ctx.cov["exhaustive"] = True
     ctx.cov["rule"] = ("for each of 10 signature classes (1/2 fixed, variadic with 0/1/2 leading fixed, method, variadic method, typed string+pointer, typed variadic strings, "
                        "no result) TLC enumerates every well-formed configuration (optional default; clauses with one "
